@@ -108,6 +108,7 @@ func main() {
 	outF := fs.String("out", "", "file to append result lines to")
 	one := fs.String("one", "", "run this single payload and print the result")
 	list := fs.Bool("list", false, "only print the case lines")
+	tmult := fs.Int("tmult", 1, "multiply the per-case time limit (used when a HANG is re-checked alone)")
 	fs.Parse(os.Args[2:])
 
 	if p.Setup != nil {
@@ -116,6 +117,9 @@ func main() {
 	to := p.Timeout
 	if to == 0 {
 		to = 10 * time.Second
+	}
+	if *tmult > 1 {
+		to *= time.Duration(*tmult)
 	}
 
 	if *one != "" {
